@@ -104,22 +104,7 @@ pub type EpochMicrosecondsOpt = Option<EpochMicroseconds>;
         em_filter is Some ==> (r is OccursAtOrAfter <==> *em >= em_filter.unwrap()),
 //@end
 
-// ---- assumed: a message / a record exposes its datetime
-#[verifier::external_body]
-pub struct Sysline { _p: u8 }
-pub type SyslineP = Arc<Sysline>;
-impl Sysline {
-    pub uninterp spec fn dt_spec(&self) -> DateTimeL;
-    #[verifier::external_body]
-    pub fn dt(&self) -> (r: &DateTimeL) ensures *r == self.dt_spec() { unimplemented!() }
-}
-#[verifier::external_body]
-pub struct FixedStruct { _p: u8 }
-impl FixedStruct {
-    pub uninterp spec fn dt_spec(&self) -> DateTimeL;
-    #[verifier::external_body]
-    pub fn dt(&self) -> (r: &DateTimeL) ensures *r == self.dt_spec() { unimplemented!() }
-}
+//@include ../common/messages.rs
 
 pub struct SyslineReader { _p: u8 }
 impl SyslineReader {
